@@ -2,9 +2,10 @@
    A row is the list of its bytes (each < 256).  Out-of-range indexing is `None`
    (the Rust code panics there). *)
 From StrettoModel Require Export Base.
+From StrettoModel Require Consts.
 Open Scope N_scope.
 
-Definition DEPTH : nat := 4.
+Definition SK_DEPTH : nat := N.to_nat Consts.DEPTH.
 
 Definition row := list N.
 
@@ -43,7 +44,7 @@ Definition sk_new (ctrs : N) (seeds : list N) : option sketch :=
   if ctrs <? 1 then None else
   let c := sk_width ctrs in
   let h := c / 2 in
-  Some {| sk_rows := repeat (row_new h) DEPTH; sk_seeds := seeds; sk_mask := c - 1 |}.
+  Some {| sk_rows := repeat (row_new h) SK_DEPTH; sk_seeds := seeds; sk_mask := c - 1 |}.
 
 Definition sk_index (s : sketch) (seed h : N) : N := N.land (N.lxor h seed) (sk_mask s).
 
